@@ -178,38 +178,53 @@ def chanDesc (ent : ChEntry) : Except Err J :=
     | some _ => throw Err.type
     | none => pure (J.str "array")
 
+/-- one field of `Element.description` -/
+def chanField (p : Chan × ChEntry) : Except Err (String × J) :=
+  match chanDesc p.2 with
+  | .error e => .error e
+  | .ok d => .ok (p.1.toStr, d)
+
 /-- `Element.description` -/
-def toDesc (e : Element) : Except Err J := do
-  let fields ← e.chans.mapM (fun (ch, ent) => (chanDesc ent).map (fun d => (ch.toStr, d)))
-  pure (J.obj fields)
+def toDesc (e : Element) : Except Err J :=
+  match e.chans.mapM chanField with
+  | .error er => .error er
+  | .ok fields => .ok (J.obj fields)
 
 def parseChan (k : String) : Except Err Chan :=
   match k.toInt? with
   | some n => .ok (.int n)
   | none => .error .value
 
+/-- the blueprint read back from a channel description, at the sample rate the caller knows -/
+def withSR (b : BP) (sr : Option Val) : BP :=
+  match sr with
+  | some v => { b with SR := v }
+  | none => b
+
 /-- build one channel from its description: blueprint, optional SR, flags -/
-def chanOfDesc (e : Element) (k : String) (d : J) (sr : Option Val) : Except Err Element := do
-  let ch ← parseChan k
-  let b ← BP.ofDesc d
-  let b := match sr with | some v => { b with SR := v } | none => b
-  let r := e.addBluePrint ch b
-  match r.err with
-  | some er => throw er
-  | none =>
-    match d.get? "flags" with
-    | some (.arr fl) =>
-      let r2 := r.st.addFlags ch (fl.map J.toVal)
-      match r2.err with
-      | some er => throw er
-      | none => pure r2.st
-    | some _ => throw Err.value
-    | none => pure r.st
+def chanOfDesc (e : Element) (k : String) (d : J) (sr : Option Val) : Except Err Element :=
+  match parseChan k with
+  | .error er => .error er
+  | .ok ch =>
+    match BP.ofDesc d with
+    | .error er => .error er
+    | .ok b =>
+      match (e.addBluePrint ch (withSR b sr)).err with
+      | some er => .error er
+      | none =>
+        match d.get? "flags" with
+        | some (.arr fl) =>
+          match ((e.addBluePrint ch (withSR b sr)).st.addFlags ch (fl.map J.toVal)).err with
+          | some er => .error er
+          | none => .ok ((e.addBluePrint ch (withSR b sr)).st.addFlags ch (fl.map J.toVal)).st
+        | some _ => .error .value
+        | none => .ok (e.addBluePrint ch (withSR b sr)).st
 
 /-- `Element.element_from_description` -/
-def ofDesc (j : J) : Except Err Element := do
-  let fields ← match j with | .obj l => pure l | _ => throw Err.attr
-  fields.foldlM (fun e (k, d) => chanOfDesc e k d none) ({} : Element)
+def ofDesc (j : J) : Except Err Element :=
+  match j with
+  | .obj fields => fields.foldlM (fun e kd => chanOfDesc e kd.1 kd.2 none) ({} : Element)
+  | _ => .error .attr
 
 end Element
 
